@@ -8,41 +8,52 @@ import HvLat.Laws.Map
 
 namespace HvLat
 
-/-- the nestings covered by the layer-A induction (everything except `DomPair`, which needs the
-comparison laws of its key and is handled in `Laws/DomPair.lean`) -/
+/-- syntactic check: the order of the type is total (what `DomPair` needs of its key) -/
+def total : LTy → Bool
+  | .maxN _ | .minN _ | .maxB | .minB | .unit => true
+  | .withBot t => total t
+  | .withTop t => total t
+  | .domPair k v => total k && total v
+  | _ => false
+
+/-- syntactic check: the type has a value that is not bottom (fails only for towers over `()`) -/
+def nondeg : LTy → Bool
+  | .maxN b => decide (0 < b)
+  | .minN b => decide (0 < b)
+  | .maxB => true
+  | .minB => true
+  | .unit => false
+  | .conflict => true
+  | .set => true
+  | .map v => nondeg v
+  | .withBot t => nondeg t
+  | .withTop _ => true
+  | .pair a b => nondeg a || nondeg b
+  | .domPair a b => nondeg a || nondeg b
+  | .vec _ => true
+
+/-- domain of the C03 theorems: every nesting in which `DomPair` keys are totally ordered and
+`MapUnion` / `WithBot` are not instantiated with a one-point value lattice (for those, `is_top` is
+`false` although every value is greatest — see `degenerate_isTop_refuted` in Props/C03.lean) -/
+def okB : LTy → Bool
+  | .domPair k v => total k && okB k && okB v
+  | .map v => nondeg v && okB v
+  | .withBot t => nondeg t && okB t
+  | .withTop t => okB t
+  | .vec t => okB t
+  | .pair a b => okB a && okB b
+  | _ => true
+
+/-- domain of the C01/C02 theorems: every nesting of the shipped constructors; a `DomPair` key must
+be totally ordered (the documented condition for `DomPair` to be a lattice) and itself in `okB`
+(its comparison laws are used by `DomPair::merge`) -/
 def okA : LTy → Bool
-  | .domPair _ _ => false
+  | .domPair k v => total k && okB k && okA v
   | .map v => okA v
   | .withBot t => okA t
   | .withTop t => okA t
   | .vec t => okA t
   | .pair a b => okA a && okA b
   | _ => true
-
-theorem lawfulA_all : ∀ t : LTy, okA t = true → LawfulA (lat t) (sem t)
-  | .maxN b, _ => lawfulA_maxN b
-  | .minN b, _ => lawfulA_minN b
-  | .maxB, _ => lawfulA_maxB
-  | .minB, _ => lawfulA_minB
-  | .unit, _ => lawfulA_unit
-  | .conflict, _ => lawfulA_conflict
-  | .set, _ => lawfulA_set
-  | .map v, h => lawfulA_map (lawfulA_all v (by simpa [okA] using h))
-  | .withBot t, h => lawfulA_withBot (lawfulA_all t (by simpa [okA] using h))
-  | .withTop t, h => lawfulA_withTop (lawfulA_all t (by simpa [okA] using h))
-  | .vec t, h => lawfulA_vec (lawfulA_all t (by simpa [okA] using h))
-  | .pair a b, h => by
-    simp only [okA, Bool.and_eq_true] at h
-    exact lawfulA_pair (lawfulA_all a h.1) (lawfulA_all b h.2)
-  | .domPair _ _, h => by simp [okA] at h
-
-end HvLat
-
-namespace HvLat
-
-/-- the domain of the property theorems: nestings of the shipped constructors -/
-def ok (t : LTy) : Bool := okA t
-
-theorem lawfulA_of_ok (t : LTy) (h : ok t = true) : LawfulA (lat t) (sem t) := lawfulA_all t h
 
 end HvLat
